@@ -267,7 +267,18 @@ func (r *Replayer) runQuery(k int, c *Concrete, q *Query) {
 		if len(a.Items) == 0 {
 			return
 		}
-		r.S.Cfg.MerkleRoot.MaxBlockHeightExcess = a.Excess
+		if r.S.Cfg.MerkleRoot.MaxBlockHeightExcess != a.Excess {
+			r.S.Cfg.MerkleRoot.MaxBlockHeightExcess = a.Excess
+			if r.cur%8 == 0 && r.Fault.Kind == "" {
+				// every eighth behaviour the value goes the way a configuration goes: the services are constructed anew from
+				// it on the same database (the others change the field of the live configuration, which is much faster)
+				r.S.Close()
+				if err := r.S.Open(); err != nil {
+					r.miss(k, "harness", "reopen with another max_block_height_excess", err.Error())
+					return
+				}
+			}
+		}
 		req := make([]domains.MerkleRootConfirmationRequestItem, len(a.Items))
 		for i, it := range a.Items {
 			req[i] = domains.MerkleRootConfirmationRequestItem{MerkleRoot: r.rootStr(c, it[0]), BlockHeight: int32(it[1])}
